@@ -1,6 +1,769 @@
+/-
+  C02 — the BIOM 1.0 (JSON) writer emits well-formed JSON that reads back exactly.
+
+  Layers (character-level reasoning is confined to the *contracts* of the external functions
+  `json.dumps`, `repr(float)`, `json.loads`, which enter as tokens):
+
+  1. `J ν` JSON values (numbers: integer literals `int`, float literals `num v` with `v : ν`
+     the value `float(token)`), `Tok ν` tokens.
+  2. `toJsonToks direct t genBy date` — transcription of `Table.to_json` (biom/table.py), both code
+     paths (`direct_io` stream / returned string), including the hand-rolled comma placement
+     (`have_written`, `max_row_idx` / `max_col_idx` tests, the empty-table special case).
+     `dumps(x)` contributes `emit (toJ x)`, `repr(float(v))` contributes `num v`.
+  3. `emit : J → List Tok` (canonical emission), `parseToks : List Tok → Option J`.
+  4. `docOf` (the document a table denotes), `docToTable` = `Table.from_json` + the constructor.
+
+  `holds` is stated on observations only: the token streams of the two real texts and what each
+  real reader returned.
+-/
 import BiomModel.Codec
 open Lean
+
 namespace Biom.C02
-/-- stub: not built yet -/
-def handle (_req : Json) : Codec.R Json := .error "C02: model not built yet"
+
+/-! ## Layer 1: values and tokens -/
+
+inductive J (ν : Type) where
+  | null
+  | bool (b : Bool)
+  | int (n : Int)
+  | num (v : ν)
+  | str (s : String)
+  | arr (xs : List (J ν))
+  | obj (kvs : List (String × J ν))
+  deriving Repr, Inhabited
+
+inductive Tok (ν : Type) where
+  | lbrace | rbrace | lbrack | rbrack | comma | colon
+  | str (s : String) | int (n : Int) | num (v : ν) | null | tru | fls
+  deriving Repr, DecidableEq, Inhabited
+
+variable {ν : Type}
+
+mutual
+def J.beq [DecidableEq ν] : J ν → J ν → Bool
+  | .null, b => (match b with | .null => true | _ => false)
+  | .bool a, b => (match b with | .bool b => a == b | _ => false)
+  | .int a, b => (match b with | .int b => a == b | _ => false)
+  | .num a, b => (match b with | .num b => decide (a = b) | _ => false)
+  | .str a, b => (match b with | .str b => a == b | _ => false)
+  | .arr a, b => (match b with | .arr b => J.beqL a b | _ => false)
+  | .obj a, b => (match b with | .obj b => J.beqF a b | _ => false)
+def J.beqL [DecidableEq ν] : List (J ν) → List (J ν) → Bool
+  | [], ys => ys.isEmpty
+  | x :: xs, ys => (match ys with | y :: ys => J.beq x y && J.beqL xs ys | [] => false)
+def J.beqF [DecidableEq ν] : List (String × J ν) → List (String × J ν) → Bool
+  | [], ys => ys.isEmpty
+  | (k, x) :: xs, ys => (match ys with | (l, y) :: ys => k == l && J.beq x y && J.beqF xs ys | [] => false)
+end
+
+/-- insertion of one field into a list sorted by key -/
+def insertField (kv : String × J ν) : List (String × J ν) → List (String × J ν)
+  | [] => [kv]
+  | x :: xs => if kv.1 < x.1 then kv :: x :: xs else x :: insertField kv xs
+
+def sortFields (l : List (String × J ν)) : List (String × J ν) := l.foldr insertField []
+
+mutual
+/-- canonical form: the fields of every object sorted by key (JSON objects are unordered) -/
+def J.canon : J ν → J ν
+  | .arr xs => .arr (J.canonL xs)
+  | .obj kvs => .obj (sortFields (J.canonF kvs))
+  | .null => .null
+  | .bool b => .bool b
+  | .int n => .int n
+  | .num v => .num v
+  | .str s => .str s
+def J.canonL : List (J ν) → List (J ν)
+  | [] => []
+  | x :: xs => x.canon :: J.canonL xs
+def J.canonF : List (String × J ν) → List (String × J ν)
+  | [] => []
+  | (k, v) :: r => (k, v.canon) :: J.canonF r
+end
+
+/-- equality as JSON values (object key order is irrelevant) -/
+def J.eqv [DecidableEq ν] (a b : J ν) : Bool := J.beq a.canon b.canon
+
+/-- `dict[k]` after `json.loads`: the last occurrence of a key wins -/
+def lookupLast (k : String) : List (String × J ν) → Option (J ν)
+  | [] => none
+  | (k', v) :: r =>
+    match lookupLast k r with
+    | some x => some x
+    | none => if k' = k then some v else none
+
+def J.get? : J ν → String → Option (J ν)
+  | .obj kvs, k => lookupLast k kvs
+  | _, _ => none
+
+/-! ## Layer 3: canonical emission and the token parser -/
+
+mutual
+def emit : J ν → List (Tok ν)
+  | .null => [.null]
+  | .bool b => [if b then .tru else .fls]
+  | .int n => [.int n]
+  | .num v => [.num v]
+  | .str s => [.str s]
+  | .arr [] => [.lbrack, .rbrack]
+  | .arr (x :: xs) => .lbrack :: (emit x ++ emitTail xs)
+  | .obj [] => [.lbrace, .rbrace]
+  | .obj ((k, v) :: r) => .lbrace :: .str k :: .colon :: (emit v ++ emitFTail r)
+def emitTail : List (J ν) → List (Tok ν)
+  | [] => [.rbrack]
+  | y :: ys => .comma :: (emit y ++ emitTail ys)
+def emitFTail : List (String × J ν) → List (Tok ν)
+  | [] => [.rbrace]
+  | (k, v) :: r => .comma :: .str k :: .colon :: (emit v ++ emitFTail r)
+end
+
+mutual
+/-- recursive descent over tokens with fuel (the contract of `json.loads` at token level) -/
+def pVal : Nat → List (Tok ν) → Option (J ν × List (Tok ν))
+  | 0, _ => none
+  | _ + 1, [] => none
+  | f + 1, t :: r =>
+    match t with
+    | .null => some (.null, r)
+    | .tru => some (.bool true, r)
+    | .fls => some (.bool false, r)
+    | .int n => some (.int n, r)
+    | .num v => some (.num v, r)
+    | .str s => some (.str s, r)
+    | .lbrack =>
+      (match r with
+       | .rbrack :: r' => some (.arr [], r')
+       | _ =>
+         match pVal f r with
+         | some (x, r1) =>
+           (match pElems f r1 with
+            | some (xs, r2) => some (.arr (x :: xs), r2)
+            | none => none)
+         | none => none)
+    | .lbrace =>
+      (match r with
+       | .rbrace :: r' => some (.obj [], r')
+       | .str k :: .colon :: r' =>
+         (match pVal f r' with
+          | some (v, r1) =>
+            (match pFields f r1 with
+             | some (kvs, r2) => some (.obj ((k, v) :: kvs), r2)
+             | none => none)
+          | none => none)
+       | _ => none)
+    | _ => none
+def pElems : Nat → List (Tok ν) → Option (List (J ν) × List (Tok ν))
+  | 0, _ => none
+  | _ + 1, [] => none
+  | f + 1, t :: r =>
+    match t with
+    | .rbrack => some ([], r)
+    | .comma =>
+      (match pVal f r with
+       | some (x, r1) =>
+         (match pElems f r1 with
+          | some (xs, r2) => some (x :: xs, r2)
+          | none => none)
+       | none => none)
+    | _ => none
+def pFields : Nat → List (Tok ν) → Option (List (String × J ν) × List (Tok ν))
+  | 0, _ => none
+  | _ + 1, [] => none
+  | f + 1, t :: r =>
+    match t with
+    | .rbrace => some ([], r)
+    | .comma =>
+      (match r with
+       | .str k :: .colon :: r' =>
+         (match pVal f r' with
+          | some (v, r1) =>
+            (match pFields f r1 with
+             | some (kvs, r2) => some ((k, v) :: kvs, r2)
+             | none => none)
+          | none => none)
+       | _ => none)
+    | _ => none
+end
+
+def parseToks (ts : List (Tok ν)) : Option (J ν) :=
+  match pVal (ts.length + 1) ts with
+  | some (j, []) => some j
+  | _ => none
+
+/-! ## Layer 2: the writer -/
+
+/-- The table as `to_json` sees it. `omd`/`smd`: the metadata handed out by `iter` per ID as a JSON
+value (`null` when the axis has no metadata). `tableId` is `str(self.table_id)`. -/
+structure JT (ν : Type) where
+  tableId : String
+  ttype : Option String
+  obs : List String
+  samp : List String
+  omd : List (J ν)
+  smd : List (J ν)
+  rows : List (List ν)
+  deriving Repr
+
+def fmtVersion : String := "Biological Observation Matrix 1.0.0"
+def fmtUrl : String := "http://biom-format.org"
+
+/-- `'"k": %s,' % dumps(s)` (and `'"k": "%s",' % s` for the constant format strings) -/
+def kvStr (k s : String) : List (Tok ν) := [.str k, .colon, .str s, .comma]
+
+/-- `matrix_element_type`: `self[0, 0]` is a float whenever the matrix has a cell, else the int 0 -/
+def elemType (t : JT ν) : String :=
+  if t.obs.length > 0 ∧ t.samp.length > 0 then "float" else "int"
+
+/-- `built_row`: one `"[%d,%d,%s]"` per value with `float(val) != 0.0` -/
+def builtRow [DecidableEq ν] [Zero ν] (i : Nat) : Nat → List ν → List (List (Tok ν))
+  | _, [] => []
+  | j, v :: vs =>
+    if v = 0 then builtRow i (j + 1) vs
+    else [.lbrack, .int i, .comma, .int j, .comma, .num v, .rbrack] :: builtRow i (j + 1) vs
+
+/-- `','.join(pieces)` -/
+def joinComma : List (List (Tok ν)) → List (Tok ν)
+  | [] => []
+  | [x] => x
+  | x :: y :: r => x ++ .comma :: joinComma (y :: r)
+
+/-- `'{"id": %s, "metadata": %s}' % (dumps(id), dumps(md))` -/
+def axisPiece (id : String) (md : J ν) : List (Tok ν) :=
+  [.lbrace, .str "id", .colon, .str id, .comma, .str "metadata", .colon] ++ emit md ++ [.rbrace]
+
+/-- mutable state of the observation loop -/
+structure LoopSt (ν : Type) where
+  io : List (Tok ν)            -- everything written to `direct_io` so far
+  data : List (List (Tok ν))   -- the list `data` of the returned-string path
+  rows : List (List (Tok ν))   -- the list `rows`
+  hw : Bool                    -- `have_written`
+
+def obsStep [DecidableEq ν] [Zero ν] (direct : Bool) (maxRowIdx : Int) (st : LoopSt ν) (i : Nat)
+    (e : List ν × String × J ν) : LoopSt ν :=
+  let piece := axisPiece e.2.1 e.2.2 ++
+    (if (i : Int) ≠ maxRowIdx then [.comma] else [.rbrack, .comma])
+  let st := { st with rows := st.rows ++ [piece] }
+  let built := builtRow i 0 e.1
+  if built.isEmpty then st
+  else
+    let st :=
+      if st.hw then
+        (if direct then { st with io := st.io ++ [.comma] } else { st with data := st.data ++ [[.comma]] })
+      else st
+    let st :=
+      if direct then { st with io := st.io ++ joinComma built }
+      else { st with data := st.data ++ [joinComma built] }
+    { st with hw := true }
+
+/-- `for obs_index, obs in enumerate(self.iter(axis='observation'))` -/
+def obsLoop [DecidableEq ν] [Zero ν] (direct : Bool) (maxRowIdx : Int) :
+    LoopSt ν → Nat → List (List ν × String × J ν) → LoopSt ν
+  | st, _, [] => st
+  | st, i, e :: es => obsLoop direct maxRowIdx (obsStep direct maxRowIdx st i e) (i + 1) es
+
+/-- `for samp_index, samp in enumerate(self.iter())` building the list `columns` -/
+def sampLoop (maxColIdx : Int) : List (List (Tok ν)) → Nat → List (String × J ν) → List (List (Tok ν))
+  | cols, _, [] => cols
+  | cols, j, e :: es =>
+    sampLoop maxColIdx
+      (cols ++ [axisPiece e.1 e.2 ++ (if (j : Int) ≠ maxColIdx then [.comma] else [.rbrack])]) (j + 1) es
+
+def obsIter (t : JT ν) : List (List ν × String × J ν) := t.rows.zip (t.obs.zip t.omd)
+def sampIter (t : JT ν) : List (String × J ν) := t.samp.zip t.smd
+
+def typeToks (t : JT ν) : List (Tok ν) :=
+  match t.ttype with
+  | none => [.str "type", .colon, .null, .comma]
+  | some s => kvStr "type" s
+
+def shapeToks (t : JT ν) : List (Tok ν) :=
+  [.str "shape", .colon, .lbrack, .int t.obs.length, .comma, .int t.samp.length, .rbrack, .comma]
+
+/-- `Table.to_json(generated_by, direct_io, creation_date)`; `date` is `creation_date.isoformat()`.
+The result is the token stream of the text written to the stream (`direct`) or returned. -/
+def toJsonToks [DecidableEq ν] [Zero ν] (direct : Bool) (t : JT ν) (genBy date : String) : List (Tok ν) :=
+  let head : List (Tok ν) := kvStr "id" t.tableId
+  let format_ : List (Tok ν) := kvStr "format" fmtVersion
+  let formatUrl : List (Tok ν) := kvStr "format_url" fmtUrl
+  let generatedBy : List (Tok ν) := kvStr "generated_by" genBy
+  let date_ : List (Tok ν) := kvStr "date" date
+  let io : List (Tok ν) := if direct then [.lbrace] ++ head ++ format_ ++ formatUrl ++ generatedBy ++ date_ else []
+  let met : List (Tok ν) := kvStr "matrix_element_type" (elemType t)
+  let shape := shapeToks t
+  let io := if direct then io ++ met ++ shape else io
+  let type_ := typeToks t
+  let io := if direct then io ++ type_ else io
+  let matrixType : List (Tok ν) := kvStr "matrix_type" "sparse"
+  let io := if direct then io ++ matrixType ++ [.str "data", .colon, .lbrack] else io
+  let data0 : List (List (Tok ν)) := if direct then [] else [[.str "data", .colon, .lbrack]]
+  let maxRowIdx : Int := (t.obs.length : Int) - 1
+  let maxColIdx : Int := (t.samp.length : Int) - 1
+  let rows0 : List (List (Tok ν)) := [[.str "rows", .colon, .lbrack]]
+  let st := obsLoop direct maxRowIdx ⟨io, data0, rows0, false⟩ 0 (obsIter t)
+  let st : LoopSt ν :=
+    if direct then { st with io := st.io ++ [.rbrack, .comma] }
+    else { st with data := st.data ++ [[.rbrack, .comma]] }
+  let columns := sampLoop maxColIdx [[.str "columns", .colon, .lbrack]] 0 (sampIter t)
+  -- `if rows[0] == '"rows": [' and len(rows) == 1:` the empty table case
+  let emptyCase := st.rows.length == 1
+  let rows : List (List (Tok ν)) :=
+    if emptyCase then [[.str "rows", .colon, .lbrack, .rbrack, .comma]] else st.rows
+  let columns : List (List (Tok ν)) :=
+    if emptyCase then [[.str "columns", .colon, .lbrack, .rbrack]] else columns
+  if direct then st.io ++ rows.flatten ++ columns.flatten ++ [.rbrace]
+  else
+    [.lbrace] ++ (head ++ format_ ++ formatUrl ++ matrixType ++ generatedBy ++ date_ ++ type_ ++ met ++ shape ++
+      st.data.flatten ++ rows.flatten ++ columns.flatten) ++ [.rbrace]
+
+def writeToks [DecidableEq ν] [Zero ν] (t : JT ν) (genBy date : String) : List (Tok ν) :=
+  toJsonToks false t genBy date
+def writeToksDirect [DecidableEq ν] [Zero ν] (t : JT ν) (genBy date : String) : List (Tok ν) :=
+  toJsonToks true t genBy date
+
+/-! ## Layer 4: the document a table denotes, and the reader -/
+
+def typeJ : Option String → J ν
+  | none => .null
+  | some s => .str s
+
+def axisObj (id : String) (md : J ν) : J ν := .obj [("id", .str id), ("metadata", md)]
+
+def axisJ : List String → List (J ν) → List (J ν)
+  | id :: ids, md :: mds => axisObj id md :: axisJ ids mds
+  | _, _ => []
+
+/-- the non-zero cells of one row, left to right -/
+def rowTriples [DecidableEq ν] [Zero ν] (i : Nat) : Nat → List ν → List (Nat × Nat × ν)
+  | _, [] => []
+  | j, v :: vs => if v = 0 then rowTriples i (j + 1) vs else (i, j, v) :: rowTriples i (j + 1) vs
+
+/-- the non-zero cells of a grid in row-major order -/
+def triplesFrom [DecidableEq ν] [Zero ν] : Nat → List (List ν) → List (Nat × Nat × ν)
+  | _, [] => []
+  | i, r :: rs => rowTriples i 0 r ++ triplesFrom (i + 1) rs
+
+def tripleJ (t : Nat × Nat × ν) : J ν := .arr [.int t.1, .int t.2.1, .num t.2.2]
+
+def dataJ [DecidableEq ν] [Zero ν] (t : JT ν) : J ν := .arr ((triplesFrom 0 t.rows).map tripleJ)
+def shapeJ (t : JT ν) : J ν := .arr [.int t.obs.length, .int t.samp.length]
+
+/-- the document in the key order of the returned string -/
+def docOf [DecidableEq ν] [Zero ν] (t : JT ν) (genBy date : String) : J ν :=
+  .obj [("id", .str t.tableId), ("format", .str fmtVersion), ("format_url", .str fmtUrl),
+        ("matrix_type", .str "sparse"), ("generated_by", .str genBy), ("date", .str date),
+        ("type", typeJ t.ttype), ("matrix_element_type", .str (elemType t)), ("shape", shapeJ t),
+        ("data", dataJ t), ("rows", .arr (axisJ t.obs t.omd)), ("columns", .arr (axisJ t.samp t.smd))]
+
+/-- the same document in the key order of the streamed form -/
+def docOfDirect [DecidableEq ν] [Zero ν] (t : JT ν) (genBy date : String) : J ν :=
+  .obj [("id", .str t.tableId), ("format", .str fmtVersion), ("format_url", .str fmtUrl),
+        ("generated_by", .str genBy), ("date", .str date),
+        ("matrix_element_type", .str (elemType t)), ("shape", shapeJ t), ("type", typeJ t.ttype),
+        ("matrix_type", .str "sparse"),
+        ("data", dataJ t), ("rows", .arr (axisJ t.obs t.omd)), ("columns", .arr (axisJ t.samp t.smd))]
+
+/-- what a reader hands back -/
+structure Read (ν : Type) where
+  obs : List String
+  samp : List String
+  omd : List (J ν)      -- `null` per ID when the axis has no metadata
+  smd : List (J ν)
+  ttype : Option String
+  genBy : Option String
+  date : Option String
+  rows : List (List ν)
+  deriving Repr
+
+def J.isNull : J ν → Bool
+  | .null => true
+  | _ => false
+def J.isObj : J ν → Bool
+  | .obj _ => true
+  | _ => false
+/-- `m is None or (isinstance(m, dict) and not m)` -/
+def J.noMd : J ν → Bool
+  | .null => true
+  | .obj [] => true
+  | _ => false
+
+/-- constructor + `_cast_metadata` on one axis: all-empty becomes "no metadata"; otherwise `None`
+entries become empty mappings; anything that is not a mapping is rejected -/
+def castMd (mds : List (J ν)) : Except Err (List (J ν)) :=
+  if mds.all J.noMd then .ok (mds.map (fun _ => .null))
+  else if mds.all (fun m => m.isNull || m.isObj) then
+    .ok (mds.map (fun m => if m.isNull then .obj [] else m))
+  else .error .tableException
+
+/-- the same normalisation, total: the metadata a reader is expected to return for `mds` -/
+def normMd (mds : List (J ν)) : List (J ν) :=
+  if mds.all J.noMd then mds.map (fun _ => .null)
+  else mds.map (fun m => if m.isNull then .obj [] else m)
+
+/-- `[col['id'] for col in …]`, `[col['metadata'] for col in …]` -/
+def axisEntry (j : J ν) : Except Err (String × J ν) :=
+  match j.get? "id", j.get? "metadata" with
+  | some (.str s), some md => .ok (s, md)
+  | some _, some _ => .error .other          -- non-text IDs: not modelled
+  | _, _ => .error .key
+
+def axisEntries : List (J ν) → Except Err (List (String × J ν))
+  | [] => .ok []
+  | j :: js => do
+    let e ← axisEntry j
+    let es ← axisEntries js
+    pure (e :: es)
+
+def asIdx : J ν → Except Err Nat
+  | .int n => if 0 ≤ n then .ok n.toNat else .error .value
+  | _ => .error .other
+
+def asVal [IntCast ν] : J ν → Except Err ν
+  | .num v => .ok v
+  | .int n => .ok (n : ν)
+  | _ => .error .other
+
+def asTriple [IntCast ν] : J ν → Except Err (Nat × Nat × ν)
+  | .arr [a, b, c] => do
+    let i ← asIdx a
+    let j ← asIdx b
+    let v ← asVal c
+    pure (i, j, v)
+  | _ => .error .value
+
+def asTriples [IntCast ν] : List (J ν) → Except Err (List (Nat × Nat × ν))
+  | [] => .ok []
+  | j :: js => do
+    let t ← asTriple j
+    let ts ← asTriples js
+    pure (t :: ts)
+
+def sumV [Add ν] [Zero ν] : List ν → ν
+  | [] => 0
+  | v :: vs => v + sumV vs
+
+/-- contract of `coo_matrix((values, (rows, cols)), shape).tocsr().toarray()`: every cell is the sum
+of the entries that name it -/
+def entriesAt (ts : List (Nat × Nat × ν)) (i j : Nat) : List ν :=
+  (ts.filter (fun t => t.1 == i && t.2.1 == j)).map (·.2.2)
+
+def gridOf [Add ν] [Zero ν] (n m : Nat) (ts : List (Nat × Nat × ν)) : List (List ν) :=
+  (List.range n).map (fun i => (List.range m).map (fun j => sumV (entriesAt ts i j)))
+
+def asDenseRow [IntCast ν] : List (J ν) → Except Err (List ν)
+  | [] => .ok []
+  | j :: js => do
+    let v ← asVal j
+    let vs ← asDenseRow js
+    pure (v :: vs)
+
+def asDense [IntCast ν] : List (J ν) → Except Err (List (List ν))
+  | [] => .ok []
+  | .arr r :: js => do
+    let v ← asDenseRow r
+    let vs ← asDense js
+    pure (v :: vs)
+  | _ => .error .value
+
+def reqField (d : J ν) (k : String) : Except Err (J ν) :=
+  match d.get? k with
+  | some v => .ok v
+  | none => .error .key
+
+def asArrE : J ν → Except Err (List (J ν))
+  | .arr xs => .ok xs
+  | _ => .error .type
+
+/-- `Table.from_json(json.loads(text))` followed by the `Table` constructor -/
+def docToTable [DecidableEq ν] [Add ν] [Zero ν] [IntCast ν] (d : J ν) : Except Err (Read ν) := do
+  let cols ← axisEntries (← asArrE (← reqField d "columns"))
+  let rws ← axisEntries (← asArrE (← reqField d "rows"))
+  let met ← reqField d "matrix_element_type"
+  -- MATRIX_ELEMENT_TYPE[...]: the value itself is not used by the constructor
+  if !(match met with | .str s => s == "int" || s == "float" || s == "unicode" | _ => false) then
+    throw .key
+  let dense := match d.get? "matrix_type" with
+    | some (.str s) => s == "dense"
+    | _ => false
+  let ty ← reqField d "type"
+  let data ← asArrE (← reqField d "data")
+  let date ← reqField d "date"
+  let _ ← reqField d "shape"
+  let gb ← reqField d "generated_by"
+  let n := rws.length
+  let m := cols.length
+  -- `_to_sparse`
+  let grid ←
+    if data.isEmpty then pure (gridOf n m ([] : List (Nat × Nat × ν)))
+    else if dense then do
+      let g ← asDense data
+      if g.length == n && g.all (·.length == m) then pure g else throw .tableException
+    else do
+      let ts ← asTriples data
+      if ts.all (fun t => t.1 < n && t.2.1 < m) then pure (gridOf n m ts) else throw .value
+  -- errcheck: duplicate IDs
+  if !(decide (rws.map (·.1)).Nodup && decide (cols.map (·.1)).Nodup) then throw .tableException
+  let smd ← castMd (cols.map (·.2))
+  let omd ← castMd (rws.map (·.2))
+  let ttype ← match ty with
+    | .null => pure none
+    | .str s => pure (some s)
+    | _ => throw .other
+  pure { obs := rws.map (·.1), samp := cols.map (·.1), omd, smd, ttype,
+         genBy := (match gb with | .str s => some s | _ => none),
+         date := (match date with | .str s => some s | _ => none),  -- `fromisoformat`, else None
+         rows := grid }
+
+/-! ## The property, on observations -/
+
+structure Input (ν : Type) where
+  t : JT ν
+  genBy : String
+  date : String
+
+structure Obs (ν : Type) where
+  toksS : List (Tok ν)          -- token stream of the returned string
+  toksD : List (Tok ν)          -- token stream of what was written to `direct_io`
+  reads : List (String × Except Err (Read ν))
+
+open Codec (Verdict chk allV)
+
+def axisOk [DecidableEq ν] : List String → List (J ν) → List (J ν) → Bool
+  | [], [], [] => true
+  | id :: ids, md :: mds, e :: es =>
+    (match e with | .obj kvs => kvs.length == 2 | _ => false) &&
+    (match e.get? "id" with | some (.str s) => s == id | _ => false) &&
+    (match e.get? "metadata" with | some m => J.eqv m md | none => false) &&
+    axisOk ids mds es
+  | _, _, _ => false
+
+def decodeTriples : List (J ν) → Option (List (Nat × Nat × ν))
+  | [] => some []
+  | .arr [.int i, .int j, .num v] :: r =>
+    if 0 ≤ i ∧ 0 ≤ j then (decodeTriples r).map ((i.toNat, j.toNat, v) :: ·) else none
+  | _ => none
+
+def cellAt (rows : List (List ν)) (i j : Nat) : Option ν := (rows[i]?).bind (·[j]?)
+
+/-- the multiset of triples is exactly `{(i,j,v) | v = T[i][j] ≠ 0}` -/
+def dataOk [DecidableEq ν] [Zero ν] (rows : List (List ν)) (n m : Nat) (ts : List (Nat × Nat × ν)) : Bool :=
+  ts.all (fun t => t.1 < n && t.2.1 < m) &&
+  (List.range n).all (fun i => (List.range m).all (fun j =>
+    entriesAt ts i j == (match cellAt rows i j with
+                         | some v => if v = 0 then [] else [v]
+                         | none => [])))
+
+def fieldIs [DecidableEq ν] (d : J ν) (k : String) (v : J ν) : Bool :=
+  match d.get? k with
+  | some x => J.beq x v
+  | none => false
+
+def checkDoc [DecidableEq ν] [Zero ν] (inp : Input ν) (tag : String) (d : J ν) : Verdict :=
+  let t := inp.t
+  allV [
+    chk (tag ++ ":twelve-keys") (match d with | .obj kvs => kvs.length == 12 | _ => false),
+    chk (tag ++ ":id") (fieldIs d "id" (.str t.tableId)),
+    chk (tag ++ ":format") (fieldIs d "format" (.str fmtVersion)),
+    chk (tag ++ ":format_url") (fieldIs d "format_url" (.str fmtUrl)),
+    chk (tag ++ ":generated_by") (fieldIs d "generated_by" (.str inp.genBy)),
+    chk (tag ++ ":date") (fieldIs d "date" (.str inp.date)),
+    chk (tag ++ ":type") (fieldIs d "type" (typeJ t.ttype)),
+    chk (tag ++ ":shape") (fieldIs d "shape" (shapeJ t)),
+    chk (tag ++ ":matrix_type") (fieldIs d "matrix_type" (.str "sparse")),
+    chk (tag ++ ":matrix_element_type")
+      (fieldIs d "matrix_element_type" (.str "float") ||
+       (fieldIs d "matrix_element_type" (.str "int") && (t.obs.isEmpty || t.samp.isEmpty))),
+    chk (tag ++ ":rows") (match d.get? "rows" with
+      | some (.arr es) => axisOk t.obs t.omd es | _ => false),
+    chk (tag ++ ":columns") (match d.get? "columns" with
+      | some (.arr es) => axisOk t.samp t.smd es | _ => false),
+    chk (tag ++ ":data") (match d.get? "data" with
+      | some (.arr es) =>
+        (match decodeTriples es with
+         | some ts => dataOk t.rows t.obs.length t.samp.length ts
+         | none => false)
+      | _ => false)]
+
+def mdSame [DecidableEq ν] : List (J ν) → List (J ν) → Bool
+  | [], [] => true
+  | a :: as, b :: bs => J.eqv a b && mdSame as bs
+  | _, _ => false
+
+def checkRead [DecidableEq ν] (inp : Input ν) (name : String) (r : Except Err (Read ν)) : Verdict :=
+  match r with
+  | .error _ => some (name ++ ":raised")
+  | .ok r =>
+    let t := inp.t
+    allV [
+      chk (name ++ ":obs-ids") (r.obs == t.obs),
+      chk (name ++ ":samp-ids") (r.samp == t.samp),
+      chk (name ++ ":grid") (r.rows == t.rows),
+      chk (name ++ ":obs-metadata") (mdSame r.omd (normMd t.omd)),
+      chk (name ++ ":samp-metadata") (mdSame r.smd (normMd t.smd)),
+      chk (name ++ ":type") (r.ttype == t.ttype),
+      chk (name ++ ":generated_by") (r.genBy == some inp.genBy),
+      chk (name ++ ":date") (r.date == some inp.date)]
+
+def verdict [DecidableEq ν] [Zero ν] (inp : Input ν) (o : Obs ν) : Verdict :=
+  match parseToks o.toksS, parseToks o.toksD with
+  | none, _ => some "string:not-well-formed"
+  | _, none => some "direct:not-well-formed"
+  | some dS, some dD =>
+    allV ([chk "same-document" (J.eqv dS dD), checkDoc inp "string" dS, checkDoc inp "direct" dD] ++
+      o.reads.map (fun nr => checkRead inp nr.1 nr.2))
+
+def holds [DecidableEq ν] [Zero ν] (inp : Input ν) (o : Obs ν) : Bool := (verdict inp o).isNone
+
+/-- the model's observation -/
+def model [DecidableEq ν] [Add ν] [Zero ν] [IntCast ν] (inp : Input ν) : Obs ν :=
+  { toksS := writeToks inp.t inp.genBy inp.date,
+    toksD := writeToksDirect inp.t inp.genBy inp.date,
+    reads := [("from_json", docToTable (docOf inp.t inp.genBy inp.date))] }
+
+/-! ## JSON glue (driver only) -/
+open Codec
+
+partial def asJ (j : Json) : R (J Rat) :=
+  match j with
+  | .null => pure .null
+  | .bool b => pure (.bool b)
+  | v => do
+    if let some x := optFld v "i" then
+      match (← asStr x).toInt? with
+      | some n => pure (.int n)
+      | none => throw "bad int"
+    else if let some x := optFld v "n" then pure (.num (← asRat x))
+    else if let some x := optFld v "s" then pure (.str (← asStr x))
+    else if let some x := optFld v "a" then pure (.arr (← asList asJ x))
+    else if let some x := optFld v "o" then
+      pure (.obj (← asList (fun p => do
+        match (← asArr p) with
+        | [k, w] => pure ((← asStr k), (← asJ w))
+        | _ => throw "bad field") x))
+    else throw "bad J"
+
+def asTok (j : Json) : R (Tok Rat) :=
+  match j with
+  | .str "{" => pure .lbrace
+  | .str "}" => pure .rbrace
+  | .str "[" => pure .lbrack
+  | .str "]" => pure .rbrack
+  | .str "," => pure .comma
+  | .str ":" => pure .colon
+  | .str "null" => pure .null
+  | .str "true" => pure .tru
+  | .str "false" => pure .fls
+  | v => do
+    match (← asArr v) with
+    | [.str "s", s] => pure (.str (← asStr s))
+    | [.str "i", s] =>
+      match (← asStr s).toInt? with
+      | some n => pure (.int n)
+      | none => throw "bad int token"
+    | [.str "n", s] => pure (.num (← asRat s))
+    | _ => throw "bad token"
+
+def asJT (j : Json) : R (JT Rat) := do
+  pure { tableId := (← strF j "table_id"), ttype := (← optF asStr j "type"),
+         obs := (← listF asStr j "obs"), samp := (← listF asStr j "samp"),
+         omd := (← listF asJ j "omd"), smd := (← listF asJ j "smd"),
+         rows := (← listF (asList asRat) j "rows") }
+
+def asRead (j : Json) : R (Except Err (Read Rat)) := do
+  if let some e := optFld j "error" then return .error (asErr (← asStr e))
+  pure (.ok { obs := (← listF asStr j "obs"), samp := (← listF asStr j "samp"),
+              omd := (← listF asJ j "omd"), smd := (← listF asJ j "smd"),
+              ttype := (← optF asStr j "type"), genBy := (← optF asStr j "generated_by"),
+              date := (← optF asStr j "date"), rows := (← listF (asList asRat) j "rows") })
+
+def tokText : Tok Rat → String
+  | .lbrace => "{" | .rbrace => "}" | .lbrack => "[" | .rbrack => "]" | .comma => "," | .colon => ":"
+  | .str s => (Json.str s).compress
+  | .int n => toString n
+  | .num v => "<" ++ (ratToJson v).compress ++ ">"
+  | .null => "null" | .tru => "true" | .fls => "false"
+
+def firstDiff : List (Tok Rat) → List (Tok Rat) → Nat → Option (Nat × String × String)
+  | [], [], _ => none
+  | a :: as, b :: bs, i => if a = b then firstDiff as bs (i + 1) else some (i, tokText a, tokText b)
+  | a :: _, [], i => some (i, tokText a, "<end>")
+  | [], b :: _, i => some (i, "<end>", tokText b)
+
+def pow10 (k : Nat) : Rat := ((10 ^ k : Nat) : Rat)
+
+def numRat (n : JsonNumber) : Rat := (n.mantissa : Rat) / pow10 n.exponent
+
+/-- `py` (the exact value of the double Python read) is within float rounding of the decimal `dec`
+that Lean's own parser read from the same characters -/
+def nearDouble (dec py : Rat) : Bool :=
+  let d := if dec ≤ py then py - dec else dec - py
+  let a := if py < 0 then -py else py
+  decide (d * ((2 ^ 53 : Nat) : Rat) ≤ a) || decide (d * ((2 ^ 1075 : Nat) : Rat) ≤ 1)
+
+/-- the document Lean's own JSON parser read from the characters agrees with the document read from
+the harness' tokens (objects as maps; float literals up to float rounding) -/
+partial def looseEq (a : J Rat) (b : Json) : Bool :=
+  match a, b with
+  | .null, .null => true
+  | .bool x, .bool y => x == y
+  | .int n, .num y => decide ((n : Rat) = numRat y)
+  | .num v, .num y => nearDouble (numRat y) v
+  | .str s, .str t => s == t
+  | .arr xs, .arr ys => xs.length == ys.size && (xs.zip ys.toList).all (fun p => looseEq p.1 p.2)
+  | .obj kvs, .obj m =>
+    kvs.length == m.toList.length &&
+    kvs.all (fun kv => match m.get? kv.1 with | some y => looseEq kv.2 y | none => false)
+  | _, _ => false
+
+def leanParseCheck (tag : String) (text : String) (toks : List (Tok Rat)) : Verdict :=
+  match Json.parse text with
+  | .error _ => some (tag ++ ":lean-json-parse-failed")
+  | .ok doc =>
+    match parseToks toks with
+    | none => some (tag ++ ":not-well-formed")
+    | some d => chk (tag ++ ":lean-json-differs-from-tokens") (looseEq d doc)
+
+def readSame (a b : Except Err (Read Rat)) : Bool :=
+  match a, b with
+  | .error e, .error f => e == f
+  | .ok a, .ok b =>
+    a.obs == b.obs && a.samp == b.samp && a.rows == b.rows && mdSame a.omd b.omd && mdSame a.smd b.smd &&
+    a.ttype == b.ttype && a.genBy == b.genBy && a.date == b.date
+  | _, _ => false
+
+/-- request: {"table":…, "generated_by":…, "date":…, "toks":[…], "toks_direct":[…], "text":…,
+"text_direct":…, "reads":[{"name":…, …}]} -/
+def handle (req : Json) : R Json := do
+  let t ← asJT (← fld req "table")
+  let inp : Input Rat := { t, genBy := (← strF req "generated_by"), date := (← strF req "date") }
+  let toksS ← listF asTok req "toks"
+  let toksD ← listF asTok req "toks_direct"
+  let reads ← listF (fun j => do pure ((← strF j "name"), (← asRead j))) req "reads"
+  let obs : Obs Rat := { toksS, toksD, reads }
+  let v1 := verdict inp obs
+  let v2 := match optFld req "text", optFld req "text_direct" with
+    | some a, some b =>
+      match a.getStr?, b.getStr? with
+      | .ok a, .ok b => (leanParseCheck "string" a toksS).and (leanParseCheck "direct" b toksD)
+      | _, _ => some "bad text fields"
+    | _, _ => none
+  let v := v1.and v2
+  let mo := model inp
+  let dS := firstDiff toksS mo.toksS 0
+  let dD := firstDiff toksD mo.toksD 0
+  let mread := match mo.reads with | (_, r) :: _ => r | [] => .error .other
+  let badRead := reads.find? (fun nr => !(readSame nr.2 mread))
+  let what : Option String :=
+    match dS, dD, badRead with
+    | some (i, a, b), _, _ => some s!"string path token {i}: real {a} model {b}"
+    | _, some (i, a, b), _ => some s!"direct path token {i}: real {a} model {b}"
+    | _, _, some (n, _) => some s!"reader {n} differs from docToTable"
+    | none, none, none => none
+  pure (Json.mkObj (verdictToJson v ++ [
+    ("model_holds", .bool (holds inp mo)),
+    ("agree", .bool what.isNone),
+    ("what", match what with | some s => .str s | none => .null),
+    ("model", Json.mkObj [("n_toks", toJson mo.toksS.length), ("n_toks_direct", toJson mo.toksD.length),
+      ("read_ok", .bool (match mread with | .ok _ => true | .error _ => false))])]))
+
 end Biom.C02
